@@ -1,6 +1,7 @@
 """Implementation side of C17: real AddrRange(**kw) and .set_idx(k)."""
 import json
 import sys
+from harness.impl import emit
 from floogen.model.routing import AddrRange
 
 
@@ -27,7 +28,7 @@ def main():
                 out.append(dump(r.set_idx(k)))
             except Exception:
                 out.append(["err"])
-        print(json.dumps(out))
+        emit((out))
 
 
 main()
